@@ -147,6 +147,29 @@ func drawRecModel(r *rng.R, kind string) recModel {
 			io.Shape = []int64{1, 0, int64(cfg.Hidden)}
 		}
 	}
+	if r.Chance(1, 6) {
+		// a streaming graph whose state inputs carry the names of its state outputs (the result map can be fed straight
+		// back): the recurrent node re-binds Y_h / Y_c in mid-graph
+		ren := map[string]string{"a5": "Y_h", "a6": "Y_c"}
+		for i := range e.Model.Inputs {
+			if nn, ok := ren[e.Model.Inputs[i].Name]; ok {
+				e.Model.Inputs[i].Name = nn
+			}
+		}
+		for i := range e.Model.Nodes {
+			in := append([]string{}, e.Model.Nodes[i].In...)
+			for k := range in {
+				if nn, ok := ren[in[k]]; ok {
+					in[k] = nn
+				}
+			}
+			e.Model.Nodes[i].In = in
+		}
+		rm.hName = "Y_h"
+		if kind == "LSTM" {
+			rm.cName = "Y_c"
+		}
+	}
 	// optionally post-process Y with an elementwise node so that the pieces flow through more than one operator
 	if !cfg.NoY && r.Chance(1, 3) {
 		e.Model.Nodes = append(e.Model.Nodes, mb.Node{Op: "Tanh", In: []string{"Y"}, Out: []string{"Yt"}})
